@@ -22,6 +22,7 @@
     goitoa <int>             → <bytes>                      strconv.Itoa
     gohex <b>                → <bytes>                      hex.EncodeToString
     goreadalllimit <data> <n> → <bytes> nil rest=<k>        io.ReadAll(io.LimitReader(bufio.Reader, n))
+    gobufwriteto <data> ok|err|short <k> → <n> nil|err|short rest=<r> calls=<c> got=<bytes>   (*bytes.Buffer).WriteTo
 -/
 import AgeModel.Wire
 import AgeModel.GoSem
@@ -104,6 +105,21 @@ def handle (op : String) (args : List String) : Option String :=
         let r := Go.bufio_ReadBytes d c
         s!"{hexOrDash r.1} {if r.2.1 == none then "nil" else "eof"} rest={r.2.2.length}"
       | _ => "bad-args"
+  | "gobufwriteto" => some <|
+      match args with
+      | [d, mode, k] => match unhex d, k.toNat? with
+        | some d, some k =>
+          -- the destination: (bytes received, calls)
+          let write (st : Bytes × Nat) (p : Bytes) : Go.M (Int × Option Go.Err × (Bytes × Nat)) :=
+            let n := if mode != "ok" && k < p.length then k else p.length
+            .ok (Int.ofNat n, if mode == "err" then some ⟨"dst", 0, []⟩ else none, (st.1 ++ p.take n, st.2 + 1))
+          match Go.buffer_WriteTo write d (([], 0) : Bytes × Nat) with
+          | .ok r =>
+            let cls := if r.2.1 == none then "nil" else if r.2.1 == Go.io_ErrShortWrite then "short" else "err"
+            s!"{r.1} {cls} rest={r.2.2.1.length} calls={r.2.2.2.2} got={hexOrDash r.2.2.2.1}"
+          | .error _ => "fault"
+        | _, _ => "bad-args"
+      | _ => "bad-arity"
   | "goallspace" => some <| b1 args fun s => bit (Go.bytes_allSpace s)
   | "gocontainsany" => some <| b2 args fun s set => bit (Go.bytes_ContainsAny s set)
   | "goitoa" => some <|
